@@ -194,7 +194,7 @@ def is_marker(s: str) -> bool:
     return ref_mark(s) != "plain"
 
 
-def gen_col(rng, kind, nrows, sep, first_col=False, name=None, odd=True, excel=False):
+def gen_col(rng, kind, nrows, sep, first_col=False, name=None, odd=True, excel=False, bigint=True):
     unit = {"text": "text", "onoff": "onoff", "datetime": "datetime"}.get(kind) or rng.choice(UNITS_NUM)
     if kind == "text":
         vals = [gen_text(rng, sep, first_col, odd) for _ in range(nrows)]
@@ -203,8 +203,10 @@ def gen_col(rng, kind, nrows, sep, first_col=False, name=None, odd=True, excel=F
     elif kind == "datetime":
         vals = [gen_ts(rng, allow_nat=not first_col, whole_seconds=excel) for _ in range(nrows)]
     elif kind == "int":
-        vals = [{"i": rng.choice([0, 1, -1, rng.randint(-10**6, 10**6), 2**53, -(2**53), 2**53 + 1, 2**60 + 1,
-                                  -(2**53) - 1, 2**62])} for _ in range(nrows)]
+        pool = [0, 1, -1, rng.randint(-10**6, 10**6), 2**53, -(2**53)]
+        if bigint:
+            pool += [2**53 + 1, 2**60 + 1, -(2**53) - 1, 2**62]
+        vals = [{"i": rng.choice(pool)} for _ in range(nrows)]
     else:
         vals = [gen_float(rng) for _ in range(nrows)]
         if first_col:
@@ -216,7 +218,7 @@ KINDS = ["text", "onoff", "datetime", "float", "int"]
 
 
 def gen_table(rng, sep=";", max_cols=4, max_rows=6, kinds=None, odd=True, transposed=None, excel=False,
-              min_cols=1):
+              min_cols=1, bigint=True):
     kinds = kinds or KINDS
     ncols = rng.randint(min_cols, max_cols)
     nrows = rng.choice([0, 1, 1, 2, 3, max_rows]) if rng.random() < 0.8 else rng.randint(0, max_rows)
@@ -225,7 +227,8 @@ def gen_table(rng, sep=";", max_cols=4, max_rows=6, kinds=None, odd=True, transp
         n = gen_name(rng)
         if n not in names and sep not in n:
             names.append(n)
-    cols = [gen_col(rng, rng.choice(kinds), nrows, sep, first_col=(j == 0), name=names[j], odd=odd, excel=excel)
+    cols = [gen_col(rng, rng.choice(kinds), nrows, sep, first_col=(j == 0), name=names[j], odd=odd, excel=excel,
+                    bigint=bigint)
             for j in range(ncols)]
     nd = rng.choice([1, 1, 2, 3])
     dests = sorted({gen_name(rng, (1, 4)) for _ in range(nd)}) if rng.random() < 0.7 else ["all"]
